@@ -17,7 +17,7 @@ DEFAULT_PROFILE = {
   "add_record": 14, "bulk_add": 6, "update_record": 14, "bulk_update": 6, "remove_record": 7,
   "bulk_remove": 3, "replace_data": 1,
   "add_column": 5, "add_formula_column": 5, "remove_column": 3, "rename_column": 4,
-  "modify_type": 3, "modify_formula": 3, "to_formula": 1, "to_data": 1, "label_change": 1,
+  "modify_type": 5, "modify_formula": 3, "to_formula": 1, "to_data": 1, "label_change": 1,
   "add_table": 2, "remove_table": 1, "rename_table": 2, "duplicate_table": 0.5,
   "summary": 2, "update_summary": 1, "detach_summary": 0.3,
   "add_ref_column": 2, "reverse_column": 1,
@@ -32,6 +32,10 @@ DEFAULT_PROFILE = {
   "remove_referenced": 0, "remove_ref_side": 0, "unlink": 0,
   "cyclic_formula": 0,
   "side_effect_formula": 0,
+  "ref_into_summary": 0.5, "remove_summary_widget": 0.5,
+  "type_change_write": 2,
+  "unhashable_key": 1.5,
+  "agg_unsorted": 1,
   "remove_readd": 2,
   "add_empty_column": 2,
   "stale_undo": 1,
@@ -153,7 +157,8 @@ class Gen(object):
       return ["L"] + [rng.choice(rows) for _ in range(k)] if rng.random() < 0.2 else \
              ["L"] + rng.sample(rows, min(k, len(rows)))
     if base == "Any":
-      return rng.choice([None, 1, "t", 2.5, True])
+      # lists and dicts are legal cell values of an Any column and are NOT hashable (lookup keys!)
+      return rng.choice([None, 1, "t", 2.5, True, 1, "t", ["L", 1, "t"], ["L"], ["O", {"a": 1}]])
     if base in ("ManualSortPos", "PositionNumber"):
       return rng.choice([None, 1.5, 2.0, 0.5, float(rng.randint(1, 6))])
     return None
@@ -295,7 +300,9 @@ class Gen(object):
       if kinds and kinds[-1] not in ("add_record", "bulk_add", "update_record", "bulk_update",
                                      "remove_record", "bulk_remove", "upsert", "temp_ids", "malformed",
                                      "ref_bulk_update", "ref_pair_update", "ref_both_sides",
-                                     "add_dangling_id", "remove_referenced"):
+                                     "add_dangling_id", "remove_referenced",
+                                     # these leave tables, columns and rows as `w` knows them
+                                     "modify_type", "modify_formula", "label_change", "rename_choices"):
         break
     return uas, kinds
 
@@ -394,7 +401,13 @@ class Gen(object):
     if not t or not tgt:
       return None
     kind = self.rng.choice(["Ref", "Ref", "RefList"])
-    return ["AddColumn", t["tableId"], self.new_name(), {"type": "%s:%s" % (kind, tgt["tableId"]), "isFormula": False}]
+    info = {"type": "%s:%s" % (kind, tgt["tableId"]), "isFormula": False}
+    if self.formulas and self.rng.random() < 0.3:
+      # a data column with a trigger (default-value) formula: has_formula() but not is_formula()
+      info["formula"] = self.rng.choice(["None", "%s.lookupOne()" % tgt["tableId"]] if kind == "Ref" else
+                                        ["None", "%s.lookupRecords()" % tgt["tableId"]])
+      info["recalcWhen"] = 0
+    return ["AddColumn", t["tableId"], self.new_name(), info]
 
   def g_add_formula_column(self, w):
     if not self.formulas:
@@ -448,8 +461,111 @@ class Gen(object):
     else:
       newt = self.rng.choice(TYPES_DATA + ["Ref:%s" % t["tableId"], "RefList:%s" % t["tableId"], "DateTime:UTC"])
     if self.rng.random() < 0.5:
-      return ["ModifyColumn", t["tableId"], c["colId"], {"type": newt}]
-    return ["UpdateRecord", "_grist_Tables_column", c["ref"], {"type": newt}]
+      act = ["ModifyColumn", t["tableId"], c["colId"], {"type": newt}]
+    else:
+      act = ["UpdateRecord", "_grist_Tables_column", c["ref"], {"type": newt}]
+    if t["rows"] and self.rng.random() < 0.5:
+      # the same bundle goes on to write cells of the column whose type it just changed (a paste after a
+      # conversion, ConvertFromColumn): later writes must win over the conversion's own value changes
+      k = self.rng.randint(1, min(3, len(t["rows"])))
+      rows = self.rng.sample(t["rows"], k)
+      newc = dict(c, type=newt)
+      more = [["UpdateRecord", t["tableId"], r, {c["colId"]: self.value_for(w, self.rng.choice([c, newc]))}] for r in rows]
+      return ([act] + more,)
+    return act
+
+  def g_type_change_write(self, w):
+    """A type change that really converts stored values, followed IN THE SAME BUNDLE by writes to some
+    of the converted cells (conversion + paste; ConvertFromColumn does this too)."""
+    t = self._table(w, need_rows=True)
+    if not t:
+      return None
+    pref = {"Int": ["Text", "Bool", "Choice"], "Numeric": ["Text", "Int"], "Text": ["Int", "Numeric", "Choice", "ChoiceList"],
+            "Bool": ["Text", "Int"], "Choice": ["ChoiceList", "Text"], "ChoiceList": ["Text", "Choice"],
+            "Date": ["Text", "Int"], "Any": ["Text", "Int"]}
+    cands = [c for c in w.data_cols(t) if c["type"] in pref and not c["reverseCol"] and not c["summarySourceCol"]]
+    if not cands:
+      return None
+    c = self.rng.choice(cands)
+    newt = self.rng.choice(pref[c["type"]])
+    if self.rng.random() < 0.5:
+      act = ["ModifyColumn", t["tableId"], c["colId"], {"type": newt}]
+    else:
+      act = ["UpdateRecord", "_grist_Tables_column", c["ref"], {"type": newt}]
+    rows = self.rng.sample(t["rows"], self.rng.randint(1, min(3, len(t["rows"]))))
+    newc = dict(c, type=newt)
+    if self.rng.random() < 0.5:
+      more = [["UpdateRecord", t["tableId"], r, {c["colId"]: self.value_for(w, newc)}] for r in rows]
+    else:
+      more = [["BulkUpdateRecord", t["tableId"], rows, {c["colId"]: [self.value_for(w, newc) for _ in rows]}]]
+    return ([act] + more,)
+
+  def g_unhashable_key(self, w):
+    """Lookups keyed on an Any column whose cells move between hashable values and lists / dicts (legal
+    cell values that cannot be dictionary keys: the lookup index has a special path for them)."""
+    import re
+    rng = self.rng
+    cands = []
+    for t in w.tables.values():
+      for c in w.visible_cols(t):
+        for m in re.finditer(r"(\w+)\.lookup(?:One|Records)\((\w+)=", c["formula"] or ""):
+          tgt = w.tables.get(m.group(1))
+          kc = [x for x in (tgt["cols"] if tgt else []) if x["colId"] == m.group(2)]
+          if kc and not kc[0]["isFormula"] and kc[0]["type"] == "Any" and tgt["rows"]:
+            cands.append((tgt, kc[0]))
+    if cands and rng.random() < 0.8:
+      tgt, kc = rng.choice(cands)
+      rows = rng.sample(tgt["rows"], rng.randint(1, min(2, len(tgt["rows"]))))
+      vals = [rng.choice([["L", 1, "t"], ["L"], ["O", {"a": 1}], 1, "t", None, ["L", 1, "t"]]) for _ in rows]
+      return ["BulkUpdateRecord", tgt["tableId"], rows, {kc["colId"]: vals}]
+    if not self.formulas:
+      return None
+    # build the situation in one bundle: an Any key column with repeated hashable keys, an Any column
+    # holding the same values on the looking-up side, and a lookup between them
+    ts = [t for t in w.user_tables() if t["rows"]]
+    if not ts:
+      return None
+    t, t2 = rng.choice(ts), rng.choice(ts)
+    k, q, f = self.new_name(), self.new_name(), self.new_name()
+    form = rng.choice(["len(%s.lookupRecords(%s=$%s))", "%s.lookupOne(%s=$%s).id", "[r.id for r in %s.lookupRecords(%s=$%s)]"])
+    return ([["AddColumn", t2["tableId"], k, {"type": "Any", "isFormula": False}],
+             ["BulkUpdateRecord", t2["tableId"], list(t2["rows"]), {k: [rng.choice(["t", "t", 1]) for _ in t2["rows"]]}],
+             ["AddColumn", t["tableId"], q, {"type": "Any", "isFormula": False}],
+             ["BulkUpdateRecord", t["tableId"], list(t["rows"]), {q: [rng.choice(["t", 1, 1]) for _ in t["rows"]]}],
+             ["AddColumn", t["tableId"], f, {"type": "Any", "isFormula": True, "formula": form % (t2["tableId"], k, q)}]],)
+
+  def g_agg_unsorted(self, w):
+    """An aggregate of a FORMULA column over record sets whose row ids are not ascending (a RefList written
+    in descending order, a lookup with order_by='-col'): reading several rows of a partly dirty column."""
+    if not self.formulas:
+      return None
+    rng = self.rng
+    ts = [t for t in w.user_tables() if len(t["rows"]) >= 2]
+    if not ts:
+      return None
+    t = rng.choice(ts)
+    nums = [c for c in w.data_cols(t) if c["type"] in ("Int", "Numeric") and not c["isFormula"]]
+    if not nums:
+      return ["AddColumn", t["tableId"], self.new_name(), {"type": "Int", "isFormula": False}]
+    x = rng.choice(nums)["colId"]
+    rl, f, s1, s2 = self.new_name(), self.new_name(), self.new_name(), self.new_name()
+    rows = list(t["rows"])
+    def unsorted():
+      k = rng.randint(2, min(4, len(rows)))
+      sel = sorted(rng.sample(rows, k), reverse=True)
+      if rng.random() < 0.3:
+        rng.shuffle(sel)
+      return ["L"] + sel
+    num = "($%s if isinstance($%s, (int, float)) else 0)" % (x, x)
+    return ([["AddColumn", t["tableId"], rl, {"type": "RefList:%s" % t["tableId"], "isFormula": False}],
+             ["BulkUpdateRecord", t["tableId"], rows, {rl: [unsorted() for _ in rows]}],
+             ["AddColumn", t["tableId"], f, {"type": "Any", "isFormula": True, "formula": "%s * 10 + $id" % num}],
+             # `$rl.F` reads the column for the whole record set at once; `r.F for r in ...` row by row
+             ["AddColumn", t["tableId"], s1, {"type": "Any", "isFormula": True,
+                                              "formula": ("sum($%s.%s)" % (rl, f)) if rng.random() < 0.7 else
+                                                         ("sum(r.%s for r in $%s)" % (f, rl))}],
+             ["AddColumn", t["tableId"], s2, {"type": "Any", "isFormula": True,
+                                              "formula": "sum(%s.lookupRecords(order_by='-%s').%s)" % (t["tableId"], x, f)}]],)
 
   def g_modify_formula(self, w):
     if not self.formulas:
@@ -706,6 +822,29 @@ class Gen(object):
     vc = self.rng.choice(w.visible_cols(tgt))
     f = "$%s.%s" % (c["colId"], vc["colId"]) if self.rng.random() < 0.8 else ""
     return ["SetDisplayFormula", t["tableId"], None, c["ref"], f]
+
+  def g_ref_into_summary(self, w):
+    """A reference column pointing INTO a summary table, shown through a display helper column: when the
+    summary table goes away (its last widget is removed) the column is converted and the helper loses
+    its user, which is itself an automatic removal triggered by an automatic removal."""
+    sums = w.user_tables(summary=True)
+    t = self._table(w)
+    if not sums or not t:
+      return None
+    st = self.rng.choice(sums)
+    vcs = [c for c in w.visible_cols(st) if c["colId"] != "group"]
+    if not vcs:
+      return None
+    name = self.new_name()
+    next_ref = max(list(w.cols_by_ref) + [0]) + 1
+    return ([["AddColumn", t["tableId"], name, {"type": "Ref:%s" % st["tableId"], "isFormula": False}],
+             ["SetDisplayFormula", t["tableId"], None, next_ref, "$%s.%s" % (name, self.rng.choice(vcs)["colId"])]],)
+
+  def g_remove_summary_widget(self, w):
+    secs, _refs = self._summary_sections(w)
+    if not secs:
+      return None
+    return ["RemoveViewSection", self.rng.choice(secs)["id"]]
 
   def g_add_rule(self, w):
     t = self._table(w)
